@@ -9,7 +9,8 @@ for d in sorted(os.listdir(os.path.join(V, "seeded"))):
     mp = os.path.join(V, "seeded", d, "meta.json")
     if os.path.exists(mp):
         rows[d] = json.load(open(mp))
-R12 = [d for d in rows if d not in R3 and d not in R4]
+R5 = [d for d in rows if rows[d].get("round") == 5]
+R12 = [d for d in rows if d not in R3 and d not in R4 and d not in R5]
 
 
 def table(names):
@@ -31,7 +32,8 @@ out = ["# Seeded breaking changes (written independently by sub-agents)\n",
        "before it was kept, then run against the checks with `tools/seed_test.sh <patch> <property>` (`git -C /repo apply`, `./check`,",
        "`git -C /repo checkout -- .`).\n",
        "| round | seeds | reported as shipped | reported after additions | still missed |", "|---|---|---|---|---|",
-       "| 1+2 | 18 | 4 | 17 | C11-1 |", "| 3 | 14 | 5 | 14 | — |", "| 4 | 10 | 4 | 9 | C09-2 |\n",
+       "| 1+2 | 18 | 4 | 17 | C11-1 |", "| 3 | 14 | 5 | 14 | — |", "| 4 | 10 | 4 | 9 | C09-2 |",
+       "| 5 | 36 | 9 | 27 | " + " ".join(d for d in R5 if rows[d]["detected_by"].startswith("missed")) + " |\n",
        "## Rounds 1 and 2 (18 seeds, one per claimed property)\n",
        "First contact: 4 of 18 (C07-1, C10-1, C14-1, C19-1). For 13 of the 14 misses a structural or relational necessary condition exists and a",
        "rule was added (each run program-wide and read for false reports before arming); C11-1 stays missed (which slots the compaction may drop",
@@ -44,6 +46,10 @@ out += table(R3)
 out += ["\n## Round 4 (10 seeds for the properties with the fewest seeds so far; agents were told the earlier seeds of the property and asked for a different function and kind of slip)\n",
         "First contact: 4 of 10. Five misses led to new rules (RAISEFAIL, LINNODE, FRAGSTATE, QUERYREST, CONVNARROW); C09-2 stays missed.\n"]
 out += table(R4)
+out += ["\n## Round 5 (36 seeds: every claimed property, one value/bound slip and one bookkeeping/control-flow slip each, in functions the earlier rounds did not touch)\n",
+        "First contact: 9 of 36. 18 misses led to new or extended rules; 9 stay missed (the reason is in the table: each is a choice between two",
+        "equally well-formed values or a floating-point result, not a shape of the code).\n"]
+out += table(R5)
 out.append("\n## Behaviour-preserving refactorings (false-alarm test)\n")
 out.append("Eight further agents produced 40 behaviour-preserving refactorings (renames, loop rewrites, helper extraction, condition restructuring,")
 out.append("temporaries) in the files with the densest rules, each with a differential driver showing identical behaviour. `tools/benign_test.sh` runs")
